@@ -13,22 +13,36 @@ CONSTANTS NObj,        \* size of the largest traditional result
           Nss,         \* namespaces
           Maxes,       \* MaxObjectCount values (NoMax only used on Open)
           Kinds,       \* open kinds explored
-          Toggles      \* BOOLEAN: explore RemoveNs / SetPull
+          Toggles,     \* BOOLEAN: explore RemoveNs / SetPull
+          Srvs,        \* servers in the process (1 or {1, 2})
+          Ots,         \* OperationTimeout values of Open (NoOt, 0, 1, 40)
+          Coes         \* ContinueOnError values of Open (NoCoe, 0, 1)
 
-VARIABLE s
-vars == <<s>>
+VARIABLES s,
+          who          \* the server the last call was made on
+vars == <<s, who>>
+
+OtsOne == {NoOt}
+OtsAll == {NoOt, 0, 1, 40}
+OtsTwo == {NoOt, 0}
+CoesOne == {NoCoe}
+CoesAll == {NoCoe, 0, 1}
 
 Results == {1..n : n \in 0..NObj}      \* traditional results {}, {1}, {1,2}...
 Seq0(S) == SetToSeq(S)
 
-Ev(op, k, ns, all, tradok, m, id, ok, code, objs, eos, ctx) ==
+Ev0(op, k, ns, all, tradok, m, id, ok, code, objs, eos, ctx) ==
   [op |-> op, k |-> k, ns |-> ns, all |-> all, tradok |-> tradok, m |-> m,
    id |-> id, ok |-> ok, code |-> code, objs |-> objs, eos |-> eos,
    ctx |-> ctx, nctx |-> -1]
+(* the call dimensions the requirement must not depend on *)
+At(e, v, ot, coe) == e @@ [srv |-> v, ot |-> ot, coe |-> coe]
+Ev(op, k, ns, all, tradok, m, id, ok, code, objs, eos, ctx) ==
+  Ev0(op, k, ns, all, tradok, m, id, ok, code, objs, eos, ctx)
 
 ErrCodes == {1, 6, 7, 21}    \* FAILED, NOT_FOUND, NOT_SUPPORTED, INV_ENUM_CTX
 
-OpenEvents ==
+OpenEvents0 ==
   {Ev("Open", k, ns, Seq0(R), tok, m, 0, TRUE, 0, Seq0(d), eos, c) :
      k \in Kinds, ns \in Nss, R \in Results, tok \in BOOLEAN, m \in Maxes,
      d \in SUBSET (1..NObj), eos \in BOOLEAN, c \in Ids \cup {0}}
@@ -36,22 +50,26 @@ OpenEvents ==
   {Ev("Open", k, ns, Seq0(R), tok, m, 0, FALSE, code, <<>>, FALSE, 0) :
      k \in Kinds, ns \in Nss, R \in Results, tok \in BOOLEAN, m \in Maxes,
      code \in ErrCodes}
+OpenEvents == {At(e, v, ot, coe) : e \in OpenEvents0, v \in Srvs, ot \in Ots,
+                                   coe \in Coes}
 
 PullKinds == {PullKindOf(k) : k \in Kinds} \cup {3}
 
-PullEvents ==
+PullEvents0 ==
   {Ev("Pull", pk, 0, <<>>, TRUE, m, id, TRUE, 0, Seq0(d), eos, c) :
      pk \in PullKinds, m \in Maxes \ {NoMax}, id \in Ids,
      d \in SUBSET (1..NObj), eos \in BOOLEAN, c \in Ids \cup {0}}
   \cup
   {Ev("Pull", pk, 0, <<>>, TRUE, m, id, FALSE, code, <<>>, FALSE, 0) :
      pk \in PullKinds, m \in Maxes \ {NoMax}, id \in Ids, code \in ErrCodes}
+PullEvents == {At(e, v, NoOt, NoCoe) : e \in PullEvents0, v \in Srvs}
 
-CloseEvents ==
+CloseEvents0 ==
   {Ev("Close", 0, 0, <<>>, TRUE, 0, id, ok, code, <<>>, FALSE, 0) :
      id \in Ids, ok \in BOOLEAN, code \in ErrCodes \cup {0}}
+CloseEvents == {At(e, v, NoOt, NoCoe) : e \in CloseEvents0, v \in Srvs}
 
-AdminEvents ==
+AdminEvents0 ==
   IF Toggles
   THEN {Ev("RemoveNs", 0, ns, <<>>, TRUE, 0, 0, TRUE, 0, <<>>, FALSE, 0) :
           ns \in Nss}
@@ -59,12 +77,13 @@ AdminEvents ==
        {Ev("SetPull", 0, 0, <<>>, TRUE, 0, 0, b, 0, <<>>, FALSE, 0) :
           b \in BOOLEAN}
   ELSE {}
+AdminEvents == {At(e, v, NoOt, NoCoe) : e \in AdminEvents0, v \in Srvs}
 
 AllEvents == OpenEvents \cup PullEvents \cup CloseEvents \cup AdminEvents
 
-Init == s = InitState(Nss)
+Init == s = InitState(Nss, Srvs) /\ who \in Srvs
 
-Step(e) == Fails(s, e) = {} /\ s' = Apply(s, e)
+Step(e) == Fails(s, e) = {} /\ s' = Apply(s, e) /\ who' = e.srv
 
 DoOpen  == \E e \in OpenEvents  : Step(e)
 DoPull  == \E e \in PullEvents  : Step(e)
@@ -99,9 +118,18 @@ Monotone ==
         /\ s.deliv[id] \subseteq s'.deliv[id]
         /\ s'.ctx[id].rem \subseteq s.ctx[id].rem]_vars
 
-(* a refused call (error response) changes nothing                         *)
+(* "interleaved sessions ... foreign contexts": whatever is done on one     *)
+(* server - with its own, stale or foreign contexts - the sessions that    *)
+(* are open on the OTHER servers stay open and keep their remaining        *)
+(* objects; and a server only ever holds sessions it opened itself.        *)
+Isolated ==
+  [][\A id \in Open(s) : s.ctx[id].srv # who' =>
+        /\ id \in Open(s') /\ s'.ctx[id] = s.ctx[id]
+        /\ s'.deliv[id] = s.deliv[id]]_vars
+
 MaxesSmall == {NoMax, 0, 1, 2, 5}
 MaxesLarge == {NoMax, 0, 1, 2, 3, 7}
+MaxesTiny == {NoMax, 0, 1, 5}
 
 Terminates == \A id \in Ids : (id \in Open(s)) ~> (id \notin Open(s))
 =============================================================================
